@@ -6,9 +6,13 @@
  *
  *   -DCOP_VIEW_SCALAR -DVERIF_TAG=k   k in {VOID,INT,FLOAT,BOOL,OPAQUE}: exact codec contract
  *                                     (C15.ser.k / C15.dec.k enforced, C15.codec.k lemma)
- *   -DCOP_VIEW_STRING                 TAG_STRING: exact codec contract, any length, ghost index
+ *   -DCOP_VIEW_STRING [-DCOP_STR_ANY] TAG_STRING: exact codec contract, any content, ghost length + ghost index
  *   -DCOP_VIEW_OTHER                  tags outside the transferable set (what the code does with them)
  *   -DCOP_VIEW_SAFE -DCOP_SAFE_CLASS=c   C16: arbitrary bytes, c = 0 scalars+other, 1 string, 2 array
+ *        [-DCOP_ALLOC_BOUND]          allocation assumption only for requests <= COP_MAX_PAYLOAD elements
+ *        [-DCOP_DEPTH_GHOST]          ghost recursion-depth counter bounded by COP_MAX_DEPTH
+ *   -DCOP_VIEW_IO                     read_all / write_all / cop_recv_* / cop_send under the adversarial OS stubs
+ *   -DCOP_VIEW_CALLER                 caller-view (r_ok/w_ok) contracts used to REPLACE calls in vm_ffi.c proofs
  *
  * Buffers are made EXACTLY as long as the image (min(buf_size, image length)) when a
  * contract is enforced, so that any access beyond the image is out of bounds for CBMC.
@@ -40,6 +44,15 @@ struct verif_cop_ghost {
     int      killed;
     int      closed_in, closed_out;
     int      inproc_called;  /* fell back to in-process vm_ffi_call */
+    uint32_t depth;          /* active recursive frames of cop_deserialize_value (C16.deser.depth) */
+    /* caller view (C16.call, C15.reqbuf) */
+    unsigned req_sent;       /* cop_send(COP_MSG_FFI_REQ) calls */
+    int      req_fail;       /* the FFI_REQ send failed */
+    int      hdr_fail;       /* a response header receive failed / was rejected */
+    int      pay_fail;       /* a payload receive failed */
+    uint32_t req_len;        /* payload_len of the last FFI_REQ */
+    int      started;        /* vm_ffi_cop_start reached */
+    int      bad_kill;       /* kill() with a target that is not a single positive pid */
 };
 extern struct verif_cop_ghost __verif_cop;
 /* ghost indices: arbitrary, never assigned (forall-generalisation) */
@@ -65,8 +78,17 @@ __CPROVER_ensures(__CPROVER_return_value->header.obj_type == TAG_STRING && __CPR
 __CPROVER_ensures(__verif_cop_k < length ==> __CPROVER_return_value->data[__verif_cop_k] == data[__verif_cop_k])
 __CPROVER_ensures(__CPROVER_return_value->data[length] == '\0');
 
+/* "allocation succeeds" is the framework's standing assumption.  With -DCOP_ALLOC_BOUND it is granted only for
+ * requests the input can pay for: at most one element per byte of the largest message (COP_MAX_PAYLOAD elements,
+ * 256 MiB); a caller asking for more on the word of the peer is refused by the contract (C16.deser.alloc.array). */
+#ifdef COP_ALLOC_BOUND
+#define COP_ALLOC_REQ(n) ((n) <= COP_MAX_PAYLOAD)
+#else
+#define COP_ALLOC_REQ(n) 1
+#endif
 VmArray *vm_array_new(VmHeap *heap, uint8_t elem_type, uint32_t initial_capacity)
 __CPROVER_requires(__CPROVER_rw_ok(heap, sizeof(*heap)))
+__CPROVER_requires(COP_ALLOC_REQ(initial_capacity))
 __CPROVER_assigns(__CPROVER_object_whole(heap))
 __CPROVER_ensures(__CPROVER_is_fresh(__CPROVER_return_value, sizeof(VmArray)))
 __CPROVER_ensures(__CPROVER_return_value->length == 0 && __CPROVER_return_value->elem_type == elem_type)
@@ -77,7 +99,8 @@ void vm_array_push(VmArray *a, NanoValue v)
 __CPROVER_requires(__CPROVER_rw_ok(a, sizeof(*a)))
 __CPROVER_assigns(__CPROVER_object_whole(a))
 __CPROVER_ensures(a->length == __CPROVER_old(a->length) + 1)
-__CPROVER_ensures(a->elem_type == __CPROVER_old(a->elem_type));
+__CPROVER_ensures(a->elem_type == __CPROVER_old(a->elem_type))
+__CPROVER_ensures(a->header.obj_type == __CPROVER_old(a->header.obj_type) && a->header.ref_count == __CPROVER_old(a->header.ref_count));
 
 /* =====================================================================
  * value codec
@@ -166,13 +189,28 @@ __CPROVER_ensures((__CPROVER_return_value != 0 && COP_K < __verif_cop_slen) ==>
 #ifndef COP_SAFE_CLASS
 #define COP_SAFE_CLASS 0
 #endif
+/* CBMC 6.11 tool note: after `*out = val_array(arr)` a dereference of out->as.array in a contract clause is
+ * resolved against a stale value set (spurious FAILURE), while the same pointer read through the union's first
+ * pointer member is resolved correctly (all pointer members share the 8 bytes).  Only the way the clause READS
+ * the pointer is affected, not what is claimed. */
+#define COP_OUT_ARRAY(o) ((VmArray *)(void *)(o)->as.string)
 #define COP_TAG_CLASS(t) ((t) == TAG_STRING ? 1 : (t) == TAG_ARRAY ? 2 : 0)
 uint32_t cop_deserialize_value(const uint8_t *buf, uint32_t buf_size, NanoValue *out, VmHeap *heap)
 __CPROVER_requires(VERIF_FRESH(buf, buf_size))
 __CPROVER_requires(__CPROVER_POINTER_OFFSET(buf) != 0 || buf_size == 0 || COP_TAG_CLASS(buf[0]) == COP_SAFE_CLASS)
 __CPROVER_requires(VERIF_FRESH(out, sizeof(*out)))
 __CPROVER_requires(VERIF_FRESH(heap, sizeof(*heap)))
+#ifdef COP_DEPTH_GHOST
+/* recursion depth (= stack use) is bounded whatever the peer sends: at most COP_MAX_DEPTH nested frames */
+#ifndef COP_MAX_DEPTH
+#define COP_MAX_DEPTH 1024u
+#endif
+__CPROVER_requires(__verif_cop.depth <= COP_MAX_DEPTH)
+__CPROVER_assigns(__CPROVER_object_whole(out), __CPROVER_object_whole(heap), __verif_cop)
+__CPROVER_ensures(__verif_cop.depth == __CPROVER_old(__verif_cop.depth))
+#else
 __CPROVER_assigns(__CPROVER_object_whole(out), __CPROVER_object_whole(heap))
+#endif
 /* 0 (rejected) or a consumed count within the buffer */
 __CPROVER_ensures(__CPROVER_return_value <= buf_size)
 __CPROVER_ensures(__CPROVER_return_value != 0 ==> (__CPROVER_return_value >= 1 && COP_IS_TRANSFERABLE(out->tag)))
@@ -181,7 +219,130 @@ __CPROVER_ensures(__CPROVER_return_value != 0 ==> (COP_IS_SCALAR(buf[0]) || buf[
 __CPROVER_ensures((__CPROVER_return_value != 0 && out->tag == TAG_STRING) ==>
                   (__CPROVER_is_fresh(out->as.string, sizeof(VmString) + 1) && out->as.string->header.obj_type == TAG_STRING))
 __CPROVER_ensures((__CPROVER_return_value != 0 && out->tag == TAG_ARRAY) ==>
-                  (__CPROVER_is_fresh(out->as.array, sizeof(VmArray)) && out->as.array->header.obj_type == TAG_ARRAY));
+                  (__CPROVER_is_fresh(out->as.array, sizeof(VmArray)) && COP_OUT_ARRAY(out)->header.obj_type == TAG_ARRAY));
+#endif
+
+#if defined(COP_VIEW_IO)
+/* ---- C16: pipe I/O under an adversarial OS ----
+ * read()/write() are stub BODIES in harness/cop_h.c (assumed contracts on the OS): any return value in
+ * -1..count, arbitrary delivered bytes, arbitrary errno; EINTR at most __verif_cop.eintr_budget more times
+ * (an arbitrary 32-bit number: termination is claimed only for finitely many EINTRs). */
+/* every caller passes COP_HEADER_SIZE or a uint32_t length */
+static bool read_all(int fd, void *buf, size_t len)
+__CPROVER_requires(len <= 0xFFFFFFFFu)
+__CPROVER_requires(len == 0 || VERIF_FRESH(buf, len))
+__CPROVER_assigns(len > 0: __CPROVER_object_upto(buf, len); __verif_cop)
+/* success means exactly len bytes were delivered by the OS into buf[0..len) */
+__CPROVER_ensures(__CPROVER_return_value ==> __verif_cop.rd_total == __CPROVER_old(__verif_cop.rd_total) + len)
+__CPROVER_ensures(!__CPROVER_return_value ==> __verif_cop.rd_total - __CPROVER_old(__verif_cop.rd_total) < len);
+
+static bool write_all(int fd, const void *buf, size_t len)
+__CPROVER_requires(len <= 0xFFFFFFFFu)
+__CPROVER_requires(len == 0 || VERIF_FRESH(buf, len))
+__CPROVER_assigns(__verif_cop)
+__CPROVER_ensures(__CPROVER_return_value ==> __verif_cop.wr_total == __CPROVER_old(__verif_cop.wr_total) + len)
+__CPROVER_ensures(!__CPROVER_return_value ==> __verif_cop.wr_total - __CPROVER_old(__verif_cop.wr_total) < len);
+
+/* accepted header => version 1 and a payload length the receiver is prepared to allocate */
+bool cop_recv_header(int fd, CopMsgHeader *hdr)
+__CPROVER_requires(VERIF_FRESH(hdr, sizeof(*hdr)))
+__CPROVER_assigns(__CPROVER_object_whole(hdr), __verif_cop)
+__CPROVER_ensures(__CPROVER_return_value ==> (hdr->version == COP_PROTO_VERSION && hdr->payload_len <= COP_MAX_PAYLOAD))
+__CPROVER_ensures(__CPROVER_return_value ==> __verif_cop.rd_total == __CPROVER_old(__verif_cop.rd_total) + COP_HEADER_SIZE);
+
+bool cop_recv_payload(int fd, void *buf, uint32_t len)
+__CPROVER_requires(len == 0 || VERIF_FRESH(buf, len))
+__CPROVER_assigns(len > 0: __CPROVER_object_upto(buf, len); __verif_cop)
+__CPROVER_ensures(__CPROVER_return_value ==> __verif_cop.rd_total == __CPROVER_old(__verif_cop.rd_total) + len);
+
+/* reads only payload[0..payload_len); on success header + payload went out completely */
+bool cop_send(int fd, CopMsgType type, const void *payload, uint32_t payload_len)
+__CPROVER_requires(payload == NULL || payload_len == 0 || VERIF_FRESH(payload, payload_len))
+__CPROVER_assigns(__verif_cop)
+__CPROVER_ensures(__CPROVER_return_value ==> __verif_cop.wr_total == __CPROVER_old(__verif_cop.wr_total) + COP_HEADER_SIZE +
+                                             ((payload != NULL) ? payload_len : 0));
+#endif
+
+#if defined(COP_VIEW_CALLER)
+/* ---- caller view: what vm_ffi_call_cop / vm_ffi_cop_stop may rely on (used to REPLACE calls only) ----
+ * cop_serialize_value : conjunction of C15.ser.<scalar> and C15.ser.string (r_ok/w_ok instead of fresh objects)
+ * cop_deserialize_value: the C16.deser.safe contract (enforced per tag class; the string class is REFUTED on the
+ *                        unchanged tree: every use of this view is conditional on that finding being fixed)
+ * cop_send / cop_recv_*: C16.send.cop_send, C16.recv.header, C16.recv.payload + ghost bookkeeping of failures */
+#define COP_SLEN(v) ((v)->as.string ? (uint64_t)(v)->as.string->length : (uint64_t)0)
+uint32_t cop_serialize_value(const NanoValue *val, uint8_t *buf, uint32_t buf_size)
+__CPROVER_requires(__CPROVER_r_ok(val, sizeof(*val)))
+__CPROVER_requires(val->tag != TAG_STRING || val->as.string == NULL || __CPROVER_r_ok(val->as.string, sizeof(VmString)))
+__CPROVER_requires(buf_size == 0 || __CPROVER_w_ok(buf, buf_size))
+__CPROVER_assigns(buf_size > 0: __CPROVER_object_upto(buf, buf_size))
+__CPROVER_ensures(__CPROVER_return_value <= buf_size)
+__CPROVER_ensures(COP_IS_SCALAR(val->tag) ==> ((__CPROVER_return_value == 0) == (buf_size < 1u + SPEC_COP_PAYLEN_M(val->tag))))
+__CPROVER_ensures((COP_IS_SCALAR(val->tag) && __CPROVER_return_value != 0) ==> __CPROVER_return_value == 1u + SPEC_COP_PAYLEN_M(val->tag))
+__CPROVER_ensures((val->tag == TAG_STRING && COP_SLEN(val) <= 0xFFFFFFFAu) ==>
+                  ((__CPROVER_return_value == 0) == ((uint64_t)buf_size < 5u + COP_SLEN(val))))
+__CPROVER_ensures((val->tag == TAG_STRING && COP_SLEN(val) <= 0xFFFFFFFAu && __CPROVER_return_value != 0) ==>
+                  __CPROVER_return_value == 5u + COP_SLEN(val));
+
+uint32_t cop_deserialize_value(const uint8_t *buf, uint32_t buf_size, NanoValue *out, VmHeap *heap)
+__CPROVER_requires(buf_size == 0 || __CPROVER_r_ok(buf, buf_size))
+__CPROVER_requires(__CPROVER_w_ok(out, sizeof(*out)))
+__CPROVER_requires(__CPROVER_rw_ok(heap, sizeof(*heap)))
+__CPROVER_assigns(__CPROVER_object_upto(out, sizeof(*out)), __CPROVER_object_whole(heap))
+__CPROVER_ensures(__CPROVER_return_value <= buf_size)
+__CPROVER_ensures(__CPROVER_return_value != 0 ==> COP_IS_TRANSFERABLE(out->tag));
+
+bool cop_send(int fd, CopMsgType type, const void *payload, uint32_t payload_len)
+__CPROVER_requires(payload == NULL || payload_len == 0 || __CPROVER_r_ok(payload, payload_len))
+__CPROVER_assigns(__verif_cop)
+__CPROVER_ensures(type == COP_MSG_FFI_REQ ==> (__verif_cop.req_sent == __CPROVER_old(__verif_cop.req_sent) + 1 &&
+                                               __verif_cop.req_len == payload_len &&
+                                               __verif_cop.req_fail == !__CPROVER_return_value))
+__CPROVER_ensures(type != COP_MSG_FFI_REQ ==> (__verif_cop.req_sent == __CPROVER_old(__verif_cop.req_sent) &&
+                                               __verif_cop.req_len == __CPROVER_old(__verif_cop.req_len) &&
+                                               __verif_cop.req_fail == __CPROVER_old(__verif_cop.req_fail)))
+__CPROVER_ensures(__verif_cop.hdr_fail == __CPROVER_old(__verif_cop.hdr_fail) && __verif_cop.pay_fail == __CPROVER_old(__verif_cop.pay_fail) &&
+                  __verif_cop.bad_kill == __CPROVER_old(__verif_cop.bad_kill) && __verif_cop.waited == __CPROVER_old(__verif_cop.waited) &&
+                  __verif_cop.started == __CPROVER_old(__verif_cop.started) && __verif_cop.inproc_called == __CPROVER_old(__verif_cop.inproc_called));
+
+bool cop_recv_header(int fd, CopMsgHeader *hdr)
+__CPROVER_requires(__CPROVER_w_ok(hdr, sizeof(*hdr)))
+__CPROVER_assigns(__CPROVER_object_upto(hdr, sizeof(*hdr)), __verif_cop)
+__CPROVER_ensures(__CPROVER_return_value ==> (hdr->version == COP_PROTO_VERSION && hdr->payload_len <= COP_MAX_PAYLOAD))
+__CPROVER_ensures(__verif_cop.hdr_fail == (__CPROVER_old(__verif_cop.hdr_fail) || !__CPROVER_return_value))
+__CPROVER_ensures(__verif_cop.req_sent == __CPROVER_old(__verif_cop.req_sent) && __verif_cop.req_len == __CPROVER_old(__verif_cop.req_len) &&
+                  __verif_cop.req_fail == __CPROVER_old(__verif_cop.req_fail) && __verif_cop.pay_fail == __CPROVER_old(__verif_cop.pay_fail) &&
+                  __verif_cop.bad_kill == __CPROVER_old(__verif_cop.bad_kill) && __verif_cop.waited == __CPROVER_old(__verif_cop.waited) &&
+                  __verif_cop.started == __CPROVER_old(__verif_cop.started) && __verif_cop.inproc_called == __CPROVER_old(__verif_cop.inproc_called));
+
+bool cop_recv_payload(int fd, void *buf, uint32_t len)
+__CPROVER_requires(len == 0 || __CPROVER_w_ok(buf, len))
+__CPROVER_assigns(len > 0: __CPROVER_object_upto(buf, len); __verif_cop)
+__CPROVER_ensures(__verif_cop.pay_fail == (__CPROVER_old(__verif_cop.pay_fail) || !__CPROVER_return_value))
+__CPROVER_ensures(__verif_cop.req_sent == __CPROVER_old(__verif_cop.req_sent) && __verif_cop.req_len == __CPROVER_old(__verif_cop.req_len) &&
+                  __verif_cop.req_fail == __CPROVER_old(__verif_cop.req_fail) && __verif_cop.hdr_fail == __CPROVER_old(__verif_cop.hdr_fail) &&
+                  __verif_cop.bad_kill == __CPROVER_old(__verif_cop.bad_kill) && __verif_cop.waited == __CPROVER_old(__verif_cop.waited) &&
+                  __verif_cop.started == __CPROVER_old(__verif_cop.started) && __verif_cop.inproc_called == __CPROVER_old(__verif_cop.inproc_called));
+#endif
+
+#if defined(COP_VIEW_OTHER)
+/* ---- tags OUTSIDE the transferable set of C15 (U8, BSTRING, STRUCT, ENUM, UNION, FUNCTION, TUPLE, HASHMAP, >= 0x0F):
+ * what the code does with them, recorded (not part of the property): the tag byte alone goes out, and any such
+ * tag byte comes back as void: the value is silently lost. */
+uint32_t cop_serialize_value(const NanoValue *val, uint8_t *buf, uint32_t buf_size)
+__CPROVER_requires(VERIF_FRESH(val, sizeof(*val)))
+__CPROVER_requires(!COP_IS_TRANSFERABLE(val->tag))
+__CPROVER_requires(VERIF_FRESH(buf, MINSZ(buf_size, 1u)))
+__CPROVER_assigns(__CPROVER_object_whole(buf))
+__CPROVER_ensures((__CPROVER_return_value == 0) == (buf_size < 1))
+__CPROVER_ensures(__CPROVER_return_value != 0 ==> (__CPROVER_return_value == 1 && buf[0] == val->tag));
+
+uint32_t cop_deserialize_value(const uint8_t *buf, uint32_t buf_size, NanoValue *out, VmHeap *heap)
+__CPROVER_requires(VERIF_FRESH(buf, MINSZ(buf_size, 1u)))
+__CPROVER_requires(buf_size == 0 || !COP_IS_TRANSFERABLE(buf[0]))
+__CPROVER_requires(VERIF_FRESH(out, sizeof(*out)))
+__CPROVER_assigns(__CPROVER_object_whole(out))
+__CPROVER_ensures((__CPROVER_return_value == 0) == (buf_size < 1))
+__CPROVER_ensures(__CPROVER_return_value != 0 ==> (__CPROVER_return_value == 1 && out->tag == TAG_VOID));
 #endif
 
 #endif
